@@ -27,9 +27,9 @@ import (
 
 func cases(tier string) int {
 	if tier == "thorough" {
-		return 800
+		return 2400
 	}
-	return 40
+	return 120
 }
 
 var Check = &run.Check{
